@@ -156,10 +156,11 @@ PROPS["C03"]["replays"] = [_rp("f6_depth_rule_compares_with_the_deepest_other_ch
 PROPS["C03"]["technique"] = "Verus contracts on the ingestion loop / depth functions + modular Kani check of get_stable_child (callees stubbed by their Verus-proved contracts)"
 PROPS["C03"]["level_note"] = ("get_stable_child is checked by Kani for anchors with <= 3 (thorough: 4) children, each child's subtree ARBITRARY (stubs = Verus-proved "
                               "contracts of depth / difficulty_based_depth / normalized_stability_threshold, Kani-proved contract of the depth bound): bounded in the number "
-                              "of children only, reported under coverage.bounded and not counted as discharged; peek/pop are assumed to implement that decision; "
+                              "of children only, reported under coverage.bounded and not counted as discharged; unstable_blocks::peek and ::pop are VERIFIED on their real bodies against "
+                              "get_stable_child's contract (pop: the tree becomes exactly the stable child's subtree, the old anchor is returned, None changes nothing); "
                               "UtxoSet::ingest_block(_continue), BlockHeaderStore::insert_block assumed (stable structures)")
 PROPS["C03"]["unverified_links"] = [
-    "unstable_blocks::pop / peek bodies (Rc<RefCell<dyn BlocksCache>>, boxed iterators), UtxoSet::ingest_block(_continue)",
+    "cache side effects inside pop (OutPointsCache::remove, NextBlockHeaders::remove_until_height, remove_from_cache, tip_depths: opaque stand-ins that cannot touch the tree), UtxoSet::ingest_block(_continue)",
     "get_stable_child for anchors with more than 4 children (Kani bound)",
     "stability threshold raised by set_config while a block is being ingested (pop would return None and the repo's expect traps): stated as precondition wf_ingesting",
 ]
